@@ -517,13 +517,25 @@ def normalise_items(paths: list) -> list:
                 (p1, src1, c1), (p2, src2, c2) = in_[4][0], s_[4][0]
                 if p1 == p2 and src1 == src2 and c1 and c2 and tuple(c1[:-1]) == tuple(c2[:-1]) and (c2[-1] == ("not", c1[-1]) or c1[-1] == ("not", c2[-1])):
                     c = c1[-1]
-                    key = ("ite", c, in_[3][1], s_[3][1])
+                    key = in_[3][1] if in_[3][1] == s_[3][1] else ("ite", c, in_[3][1], s_[3][1])
                     val = in_[3][2] if in_[3][2] == s_[3][2] else ("ite", c, in_[3][2], s_[3][2])
                     merged = ("accum", "effect", in_[2], ("setitem", key, val), ((p1, src1, tuple(c1[:-1])),), ("const", False))
                     return dict_loops(merged) or merged
         # `d = {}; for x in S: d[k(x)] = v(x)` is the dict comprehension with the same generators (same overwriting of equal keys)
         if s_[0] == "accum" and len(s_) >= 6 and s_[1] == "effect" and s_[2] == ("dictlit", ()) and s_[3][0] == "setitem":
             return accum_as_comp(s_)
+        # an attribute stored twice in one effect list keeps its last value (every read in between has already been resolved to the value it saw)
+        if s_[0] == "mut" and len(s_) == 3 and isinstance(s_[2], tuple):
+            base_, effs_ = s_[1], tuple(s_[2])
+            while is_term(base_) and base_[0] == "mut" and len(base_) == 3 and isinstance(base_[2], tuple):
+                effs_, base_ = tuple(base_[2]) + effs_, base_[1]  # one store after another on the same object is one effect list
+            last = {}
+            for i_, e_ in enumerate(effs_):
+                if isinstance(e_, tuple) and e_ and e_[0] == "setattr" and len(e_) == 3:
+                    last[e_[1]] = i_
+            kept = tuple(e_ for i_, e_ in enumerate(effs_) if not (isinstance(e_, tuple) and e_ and e_[0] == "setattr" and len(e_) == 3 and last.get(e_[1]) != i_))
+            if len(kept) != len(effs_):
+                return ("mut", base_, kept)
         return None
 
     out = []
